@@ -106,7 +106,8 @@ pub fn run(ctx: &mut Ctx) {
         let rsk = p256::SecretKey::random(&mut rng);
         let ep = rsk.public_key().to_encoded_point(false);
         let (x, y) = (ep.x().unwrap().to_vec(), ep.y().unwrap().to_vec());
-        let form = i % 5;
+        // (the 66 000-byte forms cost the model seconds each: the first cycles only)
+        let form = if i % 5 == 4 && i >= 10 { 0 } else { i % 5 };
         // form 4: an extra COSE_Key member (label -65537) holding 66 000 bytes: EReaderKeyBytes and with them the
         // SessionTranscriptBytes are longer than 65 535 bytes
         let big: Vec<u8> = (0..66_000u32).map(|j| (j % 251) as u8).collect();
@@ -148,7 +149,7 @@ pub fn run(ctx: &mut Ctx) {
         let dsk = p256::SecretKey::random(&mut rng);
         let ep = dsk.public_key().to_encoded_point(false);
         let (x, y) = (ep.x().unwrap().to_vec(), ep.y().unwrap().to_vec());
-        let form = i % 5;
+        let form = if i % 5 == 4 && i >= 10 { 0 } else { i % 5 };
         let big: Vec<u8> = (0..66_000u32).map(|j| (j % 251) as u8).collect();
         let key_bytes: Vec<u8> = if form == 4 { [vec![0xa5, 0x01, 0x02, 0x20, 0x01, 0x21, 0x58, 0x20], x.clone(), vec![0x22, 0x58, 0x20], y.clone(), vec![0x3a, 0x00, 0x01, 0x00, 0x00, 0x5a, 0x00, 0x01, 0x01, 0xd0], big.clone()].concat() }
                                  else if form % 2 == 0 { [vec![0xa4, 0x01, 0x02, 0x20, 0x01, 0x21, 0x58, 0x20], x.clone(), vec![0x22, 0x58, 0x20], y.clone()].concat() }
@@ -234,7 +235,7 @@ pub fn run(ctx: &mut Ctx) {
         let Ok(de) = Tag24::<DeviceEngagement>::from_bytes(de_bytes.clone()) else { continue };
         let (ho, ho_c): (Handover, Value) = match i % 4 {
             0 => (Handover::QR, Value::Null),
-            1 => { let hl = if i % 20 == 5 { 65_536 + ctx.rng.gen_range(0..3000) } else { ctx.rng.gen_range(0..30) }; let hs: Vec<u8> = (0..hl).map(|_| ctx.rng.gen()).collect(); (Handover::NFC(ByteStr::from(hs.clone()), None), arr(vec![bytes(&hs), Value::Null])) }
+            1 => { let hl = if i % 20 == 5 && i < 200 { 65_536 + ctx.rng.gen_range(0..3000) } else { ctx.rng.gen_range(0..30) }; let hs: Vec<u8> = (0..hl).map(|_| ctx.rng.gen()).collect(); (Handover::NFC(ByteStr::from(hs.clone()), None), arr(vec![bytes(&hs), Value::Null])) }
             2 => { let hs: Vec<u8> = (0..5).map(|_| ctx.rng.gen()).collect(); let hr: Vec<u8> = (0..7).map(|_| ctx.rng.gen()).collect(); (Handover::NFC(ByteStr::from(hs.clone()), Some(ByteStr::from(hr.clone()))), arr(vec![bytes(&hs), bytes(&hr)])) }
             _ => (Handover::OID4VP("nonce-é".into(), "aud".into()), arr(vec![text("nonce-é"), text("aud")])),
         };
